@@ -140,12 +140,12 @@ def run(ctx):
 
 CLAIM = {
     'technique': 'field-write inventory + guard-fact typestate on the arming site, who-may-write table with symbolic '
-                 'min() bound, loop extent check, failure-arm typestate, call-site error discipline',
+                 'min() bound, loop extent check, failure-arm typestate, call-site error discipline, pattern-injection taint rule (response text reaches regcomp only through a quoting helper), resumed-search start offset against the unexamined tail (linear, loops unrolled twice)',
     'text': 'static analysis: decides C05-a..f (mechanism) - chunks become valid only under a digest comparison; the '
             'write window is armed only for the matching not-yet-valid chunk after the previous one was verified, '
             'with a seek to its offset; only four named sites write to the target and the payload write is bounded '
             'by the window; a failed chunk is zero-filled over exactly its extent, marked failed and reported. '
-            'Fragmentation independence of the multipart scanner is NOT decided.',
+            'Fragmentation independence of the multipart scanner is NOT decided. C05-h/i: the boundary is quoted before it becomes part of a pattern; a resumed terminator search never skips an unexamined position.',
     'note': 'trusted: clang 14 front end; access-path non-aliasing (chk / tgt_chk / dl->tgt_check are names, not '
             'proven distinct objects); write_data/seek_data summaries',
 }
